@@ -178,3 +178,176 @@ def c01_1(I, shape):
         I.check(AND(snd._writeState.seqnum == seq + inc,
                     rcv._readState.seqnum == seq + inc),
                 "seqnum-advanced-once")
+
+
+# ---------------------------------------------------------------------------
+# C01.2  fragmentation and record-size limits (TLSRecordLayer._sendMsg)
+# ---------------------------------------------------------------------------
+from models.conn import (conn_proxies, CONN_ASSUMES, make_conn, record,
+                         FaultSock, split_records)
+import tlslite.tlsrecordlayer as trl
+from tlslite.messages import ApplicationData
+
+
+def _shapes_c01_2(tier):
+    out = []
+    lens = (0, 1, 3, 4, 5, 8, 9, 12) if tier == "quick" else range(0, 41)
+    for n in lens:
+        for ctype in ("application_data", "handshake", "heartbeat"):
+            out.append(dict(n=n, ctype=ctype))
+    return out
+
+
+@obligation("C01.2", _shapes_c01_2,
+            functions=["tlslite.tlsrecordlayer:TLSRecordLayer._sendMsg",
+                       "tlslite.tlsrecordlayer:TLSRecordLayer.recordSize",
+                       "tlslite.tlsrecordlayer:TLSRecordLayer."
+                       "_sendMsgThroughSocket",
+                       "tlslite.messages:ApplicationData.splitFirstByte",
+                       "tlslite.recordlayer:RecordLayer.sendRecord"],
+            assumes=CONN_ASSUMES + [
+                "user record limit and negotiated limit are symbolic "
+                "integers 1..6 (the code treats limits as ordinary integers; "
+                "2^14 is not special to _sendMsg), message contents symbolic, "
+                "message length enumerated; version and CBC mode picked by "
+                "symbolic selectors"],
+            patches=lambda s: (conn_proxies(), []), max_paths=20000,
+            also=("C16",))
+def c01_2(I, shape):
+    """fragments concatenate to the message, none exceeds min(user limit,
+    negotiated limit), all but the last are full, no empty fragment is added,
+    and the 1/n-1 split happens exactly for CBC application data in
+    SSLv3/TLS 1.0"""
+    n = shape["n"]
+    ctype = getattr(ContentType, shape["ctype"])
+    data = I.bytes(n, "msg")
+    version = I.pick([(3, 1), (3, 3), (3, 4)], "version")
+    conn, sock = make_conn(version, True)
+    user = I.int_range(1, 6, "user_limit")
+    nego = I.int_range(1, 6, "negotiated_limit")
+    conn._user_record_limit = user
+    conn._recordLayer.send_record_limit = nego
+    cbc = I.pick([False, True], "cbc")
+    if cbc:
+        conn._recordLayer.isCBCMode = lambda: True
+    msg = Message(ctype, newbuf(list(data))) if ctype != \
+        ContentType.application_data else \
+        ApplicationData().create(newbuf(list(data)))
+    for _ in conn._sendMsg(msg):
+        pass
+    recs = split_records(sock.out)
+    limit = int(conn.recordSize)
+    payload = []
+    for t, v, p in recs:
+        payload += list(p)
+    I.check(len(payload) == n and bool(seq_eq(payload, data)),
+            "fragments-concatenate-to-the-message")
+    I.check(all(t == ctype for t, v, p in recs), "content-type-preserved")
+    I.check(AND(limit <= user, limit <= nego, OR(limit == user,
+                                                 limit == nego)),
+            "record-size-is-the-smaller-limit")
+    I.check(all(len(p) <= limit for t, v, p in recs),
+            "no-fragment-exceeds-the-limit-in-force")
+    split = cbc and version <= (3, 1) and \
+        ctype == ContentType.application_data
+    body = recs
+    if split:
+        I.check(len(recs) >= 1 and len(recs[0][2]) == min(1, n),
+                "one-byte-first-record-for-cbc-in-tls10")
+        body = recs[1:]
+        rest = max(0, n - 1)
+    else:
+        rest = n
+    if split and n <= 1:
+        I.check(body == [], "split-of-tiny-write-adds-no-empty-record")
+        return
+    want = max(1, -(-rest // limit))
+    I.check(len(body) == want, "minimal-number-of-fragments",
+            detail=lambda: dict(n=n, limit=limit, records=[len(p) for t, v, p
+                                                           in recs]))
+    I.check(all(len(p) == limit for t, v, p in body[:-1]),
+            "all-but-the-last-fragment-are-full")
+
+
+# ---------------------------------------------------------------------------
+# C01.3  read buffer: read(max, min) partitions the stream exactly
+# ---------------------------------------------------------------------------
+
+def _shapes_c01_3(tier):
+    out = []
+    for lens in (((2, 1), (3,), (1, 0, 2)) if tier == "quick"
+                 else ((2, 1), (3,), (1, 0, 2), (4, 4), (0, 3, 1))):
+        for end in ("close_notify", "more"):
+            out.append(dict(lens=list(lens), end=end))
+    return out
+
+
+@obligation("C01.3", _shapes_c01_3,
+            functions=["tlslite.tlsrecordlayer:TLSRecordLayer.readAsync",
+                       "tlslite.tlsrecordlayer:TLSRecordLayer.unread",
+                       "tlslite.tlsrecordlayer:TLSRecordLayer._shutdown",
+                       "tlslite.tlsrecordlayer:TLSRecordLayer._getMsg"],
+            assumes=CONN_ASSUMES + [
+                "wire = application-data records of the enumerated lengths "
+                "with symbolic contents, then close_notify (or nothing more, "
+                "transport blocks); three read(max, min) calls with symbolic "
+                "max in 0..4/None and min in 0..3"],
+            patches=lambda s: (conn_proxies(), []), max_paths=30000,
+            timeout=(300, 1200))
+def c01_3(I, shape):
+    """the bytes returned by successive reads are a prefix-exact partition
+    of what the peer wrote; nothing is lost at close"""
+    from tlslite.constants import AlertDescription, AlertLevel
+    parts = [I.bytes(k, "rec") for k in shape["lens"]]
+    stream = []
+    wire = []
+    for p in parts:
+        stream += list(p)
+        wire += record(ContentType.application_data, p)
+    closing = shape["end"] == "close_notify"
+    if closing:
+        wire += record(ContentType.alert, [AlertLevel.warning,
+                                           AlertDescription.close_notify])
+    sock = FaultSock(wire, block_when_empty=not closing)
+    conn, sock = make_conn((3, 3), True, sock=sock)
+    got = []
+    total = len(stream)
+    for call in range(3):
+        mx = I.pick([None, 0, 1, 2, 4], "max")
+        mn = I.pick([0, 1, 2, 3], "min")
+        blocked = False
+        val = None
+        for r in conn.readAsync(max=mx, min=mn):
+            if isinstance(r, int) and not isinstance(r, bool):
+                if r == 0:
+                    blocked = True
+                    break
+                continue
+            val = r
+        if blocked:
+            # would block: nothing may have been consumed from what we have
+            # not been given yet; stop here
+            break
+        if mx is not None:
+            I.check(len(val) <= mx, "at-most-max-bytes")
+        avail_before = total - len(got)
+        if not conn.closed and mn <= avail_before:
+            I.check(len(val) >= min(mn, avail_before if mx is None
+                                    else min(mx, avail_before)),
+                    "at-least-min-bytes-when-available")
+        got += list(val)
+    # drain what is left without touching the socket again
+    rest = list(conn._readBuffer)
+    I.check(len(got) <= total and bool(seq_eq(got, stream[:len(got)])),
+            "reads-return-a-prefix-of-the-stream-in-order")
+    if closing and conn.closed:
+        # everything the peer wrote before close_notify is still readable
+        more = []
+        for _ in range(4):
+            r = None
+            for r in conn.readAsync(max=None, min=0):
+                pass
+            more += list(r)
+        I.check(len(got) + len(more) == total and
+                bool(seq_eq(got + more, stream)),
+                "nothing-lost-at-orderly-close")
